@@ -71,10 +71,12 @@ func (c *Ctx) lin(v ssa.Value, subst bool, d int) *linForm {
 			return c.linLen(x.Call.Args[0], b.Name() == "cap", subst, d+1)
 		}
 	case *ssa.Extract:
-		if call, ok := x.Tuple.(*ssa.Call); ok && x.Index == 0 && subst {
-			m := eng.MethodName(&call.Call)
-			if m == "ReadFrom" || m == "Read" || m == "ReadFromUDP" {
-				return c.linLen(eng.Arg(&call.Call, 0), false, subst, d+1)
+		if subst {
+			// the byte count of a read (directly, or through a read helper): at most the length of the buffer read into
+			for _, lf := range c.boundLeaves(x) {
+				if lf.kind == "readn" && lf.v == ssa.Value(x) && lf.of != nil {
+					return c.linLen(lf.of, false, subst, d+1)
+				}
 			}
 		}
 	}
